@@ -97,6 +97,9 @@ class SymH:
     def flag(self, name):
         return CTX.obs(z3.Bool(name))
 
+    def free(self, i):
+        return SymInt(z3.Int(f"fi{i}")).concrete() == 1
+
     def target(self, name, names):
         d = {}
         for i, nm in enumerate(names):
@@ -124,6 +127,9 @@ class ConcH:
 
     def flag(self, name):
         return bool(self.h.get(name, False))
+
+    def free(self, i):
+        return int(self.h.get(f"fi{i}", 0)) == 1
 
     def target(self, name, names):
         d = {}
@@ -173,10 +179,54 @@ def build_op(k, kind, H, sd, names):
     return op
 
 
+# ---- presentation of inputs: variables whose dynamics are the identity can be handed to the library as FREE INPUTS
+# (no update function at all: the rule line is dropped from the bnet text; AEON then creates an implicit parameter
+# without regulators, which biobalm accepts and reads as "never changes")
+PRESENT = {"free": ()}
+
+
+def declare_free(net):
+    """fi<v> = 1: variable v is presented as a free input; only allowed when its dynamics are the identity"""
+    vs, cs = [], []
+    for i in range(net.n):
+        t = z3.Int(f"fi{i}")
+        vs.append(t)
+        cs += [t >= 0, t <= 1, z3.Implies(t == 1, z3.And([net.fval(i, x) == bool(x[i]) for x in net.states]))]
+    cs.append(z3.Sum(vs) >= 1)
+    return vs, cs
+
+
+def set_presentation(H, names, params):
+    PRESENT["free"] = ()
+    if params.get("free_inputs"):
+        PRESENT["free"] = tuple(nm for i, nm in enumerate(names) if H.free(i))
+
+
+def present(rules):
+    free = PRESENT["free"]
+    if not free:
+        return rules
+    lines = [ln for ln in rules.splitlines() if ln.strip()]
+    import re
+    out = []
+    for ln in lines:
+        nm = ln.split(",", 1)[0].strip()
+        others = " ".join(l.split(",", 1)[1] for l in lines if l.split(",", 1)[0].strip() not in free)   # functions that stay
+        if nm in free and re.search(r"(?<![A-Za-z0-9_])" + re.escape(nm) + r"(?![A-Za-z0-9_])", others):
+            continue        # dropped: the variable still exists because another function mentions it
+        out.append(ln)
+    return "\n".join(out) + "\n"
+
+
+def from_rules(rules, config=None):
+    from biobalm import SuccessionDiagram
+    text = present(rules)
+    return SuccessionDiagram.from_rules(text) if config is None else SuccessionDiagram.from_rules(text, config=config)
+
+
 def run_history(rules, skeleton, H, names, after_op=None, attractors=False, config=None):
     """execute the skeleton; returns (sd, trace) with trace = list of dict(kind, op, rec, dump)"""
-    from biobalm import SuccessionDiagram
-    sd = SuccessionDiagram.from_rules(rules) if config is None else SuccessionDiagram.from_rules(rules, config=config)
+    sd = from_rules(rules, config)
     trace = []
     for k, kind in enumerate(skeleton):
         op = build_op(k, kind, H, sd, names)
